@@ -240,16 +240,21 @@ pub fn gen_bad(rng: &mut Rng) -> Bad {
         // ---- content type other than the endpoint's
         5 => {
             let body = serde_json::to_vec(&valid_body()).unwrap();
-            let (path, ct, class): (&str, &str, &str) = match rng.below(7) {
-                0 => ("/json", "application/x-www-form-urlencoded", "json-endpoint-gets-urlencoded"),
-                1 => ("/json", "text/plain", "json-endpoint-gets-text-plain"),
-                2 => ("/json", "application/octet-stream", "json-endpoint-gets-octet-stream"),
-                3 => ("/json", "application/xml", "json-endpoint-gets-unsupported-type"),
-                4 => ("/form", "application/json", "form-endpoint-gets-json"),
-                5 => ("/json", "multipart/form-data; boundary=x", "json-endpoint-gets-multipart"),
-                _ => ("/form", "text/html", "form-endpoint-gets-unsupported-type"),
+            let (path, ct, class): (&str, &[u8], &str) = match rng.below(11) {
+                // a media type that is not even a string is certainly not the endpoint's
+                7 => ("/json", b"text/pl\xe4in", "json-endpoint-gets-non-ascii-type"),
+                8 => ("/json", b"application/json\xff", "json-endpoint-gets-json-plus-high-byte"),
+                9 => ("/form", b"application/x-www-form-urlencoded\xc3\xa9", "form-endpoint-gets-type-plus-high-bytes"),
+                10 => ("/json", b"\xe9", "json-endpoint-gets-lone-high-byte"),
+                0 => ("/json", b"application/x-www-form-urlencoded", "json-endpoint-gets-urlencoded"),
+                1 => ("/json", b"text/plain", "json-endpoint-gets-text-plain"),
+                2 => ("/json", b"application/octet-stream", "json-endpoint-gets-octet-stream"),
+                3 => ("/json", b"application/xml", "json-endpoint-gets-unsupported-type"),
+                4 => ("/form", b"application/json", "form-endpoint-gets-json"),
+                5 => ("/json", b"multipart/form-data; boundary=x", "json-endpoint-gets-multipart"),
+                _ => ("/form", b"text/html", "form-endpoint-gets-unsupported-type"),
             };
-            Bad { position: "content-type", class: class.into(), req: Req::new("POST", path).header("content-type", ct).body(&body) }
+            Bad { position: "content-type", class: class.into(), req: Req::new("POST", path).header_bytes("content-type", ct).body(&body) }
         }
         // ---- urlencoded body
         _ => {
